@@ -4,8 +4,8 @@
   `convertO cfg copy o g σ s` is one node of `ToJSONSchema(s, o)` with the options as parameters: the value-typed fields, the
   metadata registry, the `URI` callback (a function of the id) and the `Override` callback (user code that may assign the
   node's value keywords and rewrite in place the memory the node holds — see the header of the model file for what user code
-  is allowed).  `copy` = whether `applyMeta` clones `meta.Examples` (pending/C12-examples-clone.diff) or stores the registry
-  entry's own slice in the document (the code as it stands).
+  is allowed).  `copy` = whether `applyMeta` clones `meta.Examples` (the code since /repo 8997831) or stores the registry
+  entry's own slice in the document (the code before it: legacy, kept for the witness).
 
     c12_opts_ext             with the clone: for every option set — every Override — the conversion only ALLOCATES …
     c12_opts_pure            … hence every allocated schema (the converted one, ancestors, siblings) is observed as before,
@@ -15,7 +15,7 @@
                              (`c12_opts_after_others`)
     c12_opts_hist            along every interleaving of chaining calls, conversions under any options, and parses, every live
                              schema keeps its observation
-    c12_opts_partial         the code as it stands (no clone): the same holds for every option set WITHOUT an Override …
+    c12_opts_partial         the legacy code (no clone): the same held for every option set WITHOUT an Override …
     override_edits_registry_examples / c12_opts_full_false
                              … and is false with one: an Override that rewrites `ctx.JSONSchema.Examples[0]` rewrites the
                              registry entry; the next conversion (no Override) shows the rewritten example.
@@ -373,7 +373,7 @@ theorem c12_opts_hist (cfg : Cfg) (h1 : cfg.cloneBagAlways = true) (h2 : cfg.con
         refine ⟨hi2, List.IsPrefix.trans (List.prefix_append _ _) hp2, fun s hs => ?_⟩
         rw [ho2 s (List.mem_append_left _ hs), hobs s hs]
 
-/-! ### the code as it stands: `jsonSchema.Examples = meta.Examples` -/
+/-! ### the code before /repo 8997831: `jsonSchema.Examples = meta.Examples` -/
 
 /-- The full statement, for a given `applyMeta`: under every option set the conversion writes nothing that existed before. -/
 def c12_opts_full (copy : Bool) : Prop :=
@@ -416,7 +416,7 @@ theorem ovw_ok : OvOK ovw := by
     · right; exact ⟨p, hp, rfl⟩
     · left; simp at hp; exact ⟨99, by rw [hp]⟩
 
-/-- **Witness (the code as it stands)**: the Override's assignment lands in the registry entry — `GlobalRegistry.Get(s)` shows
+/-- **Witness (legacy code, before 8997831)**: the Override's assignment lands in the registry entry — `GlobalRegistry.Get(s)` shows
     example 99 instead of 7 afterwards — and the next conversion, without any Override, shows it too; with the clone neither. -/
 theorem override_edits_registry_examples :
     entryObs (convertO fixed false ⟨⟨0, 0, 0, 0, 0⟩, none, none, some ovw⟩ gw σw sw).1.heap (gw 5) ≠ entryObs σw.heap (gw 5) ∧
